@@ -31,4 +31,6 @@ HARNESSES += [h for h in _load("C05").HARNESSES if h.name.startswith("wrap.") an
 HARNESSES += [h for h in _load("C17").HARNESSES if h.name.startswith("cmd.SFC_GET") or h.name.startswith("cmd.0x")]
 # fixed-layout container parsers + sane-info gate on arbitrary files (thorough tier; see C16 registry)
 HARNESSES += _load("C16").oc_harnesses()
+# chunked containers: chunk sequences with symbolic contents (AIFF), parse + gate + close
+HARNESSES += _load("C16").seq_harnesses()
 META = {"assumptions": ["E-memfile (content nondeterministic)", "layering by contracts (DESIGN 3.3)"], "outside": ["whole-file parse of the chunked containers in one query", "files longer than the stated length"]}
